@@ -13,7 +13,8 @@ import Srtla.Model.Reg
 Rust: `src/sender/{packet_handler.rs, uplink_recv.rs, housekeeping.rs}` — the arms of the event
 loop in `src/sender/mod.rs`, and `src/sender/connections.rs` (`apply_connection_changes`, event `reload`).  One `Ev` = one arm invocation with the clock value it read; the
 outcomes of the two fallible external calls that are modelled are injected deterministically (also in
-the harness): `send_all_datagrams` on a batch fails for the conn ids in `failNext`, the socket
+the harness): `send_all_datagrams` on a batch fails for the conn ids in `failNext` (after the first `k` datagrams
+of the batch went out, for the failures injected with `Ev.failAfter cid k`: `failAfter`), the socket
 re-creation of `reconnect_uplink` (uplink binder) fails for the conn ids in `failBind`.  Everything put on an uplink socket
 and everything relayed to the SRT client is returned in `Out`, in order.
 -/
@@ -33,6 +34,12 @@ structure Sys (F : Type) where
   allFailedAt : Option Nat := none
   /-- conn ids whose next `send_all_datagrams` fails (send-failure injection). -/
   failNext : List Nat := []
+  /-- for the PARTIAL ones among the pending send failures: (conn id, number of datagrams of the batch that go out
+  before `send_all_datagrams` returns the error), oldest first.  `failNext` holds the conn id of EVERY pending
+  injected failure, partial or not (one entry each: it alone decides whether a send fails); of the entries
+  `(c, _)` of this list only the LAST `failNext.count c` are live (`failPrefix` reads from the end; the arms of the
+  loop never write this field, the two injection events drop the dead entries: `pruneAfter`). -/
+  failAfter : List (Nat × Nat) := []
   /-- conn ids whose next socket re-creation in `reconnect_uplink` fails (the uplink binder refuses:
   bind-failure injection); consumed by the next reconnect attempt of that link. -/
   failBind : List Nat := []
@@ -62,12 +69,34 @@ def setAt (ls : List (FLink F)) (i : Nat) (l : FLink F) : List (FLink F) :=
 
 /-! ## packet_handler.rs -/
 
-/-- `send_connection_batch`: (link, wire datagrams, ok, remaining fail set). -/
-def sendConnectionBatch (l : FLink F) (now : Nat) (failNext : List Nat) :
+/-- How many datagrams of its batch a FAILING send on conn id `cid` puts on the wire before the error, when `cid`
+still occurs `c ≥ 1` times in `failNext`.  With `ks` the prefix lengths of the partial injections pending for `cid`
+(oldest first): the plain injections (`fail_next`, nothing goes out) are consulted first - `c > ks.length`: `0` -,
+then the partial ones oldest first - the one consumed at multiplicity `c` is entry `ks.length - c`.
+(`src/net/mod.rs`: `verif_fail::take` before `verif_fail::take_after`, which removes the first match.) -/
+def failPrefix (fa : List (Nat × Nat)) (cid c : Nat) : Nat :=
+  let ks := (fa.filter fun e => e.1 == cid).map (·.2)
+  if c ≤ ks.length then ks.getD (ks.length - c) 0 else 0
+
+/-- Drop the entries of `failAfter` whose failure has been consumed: `(c, k)` stays iff fewer than
+`fn.count c` entries of the same conn id follow it. -/
+def pruneAfter (fn : List Nat) : List (Nat × Nat) → List (Nat × Nat)
+  | [] => []
+  | e :: rest =>
+    if (rest.filter fun x => x.1 == e.1).length < fn.count e.1 then e :: pruneAfter fn rest
+    else pruneAfter fn rest
+
+/-- `send_connection_batch`: (link, wire datagrams, ok, remaining fail set).  `send_all_datagrams` returns `Err` as
+soon as one `sendmmsg` call fails: the datagrams accepted before the failing call ARE on the wire - a prefix of the
+batch (`failPrefix`: none for `Ev.failNext`, the first `min k len` for `Ev.failAfter cid k`) -, the rest are not, and
+the caller sees a failed send of the whole batch (`ok = false`).  `fa` (`Sys.failAfter`) is only read. -/
+def sendConnectionBatch (fa : List (Nat × Nat)) (l : FLink F) (now : Nat) (failNext : List Nat) :
     FLink F × List (Nat × Bytes) × Bool × List Nat :=
   let (l1, batch) := l.takeBatch now
   if batch.isEmpty then (l1, [], true, failNext)
-  else if failNext.contains l.core.connId then (l1, [], false, failNext.erase l.core.connId)
+  else if failNext.contains l.core.connId then
+    (l1, (batch.take (failPrefix fa l.core.connId (failNext.count l.core.connId))).map fun it => (l.core.connId, it.1),
+      false, failNext.erase l.core.connId)
   else (l1, batch.map fun it => (l.core.connId, it.1), true, failNext)
 
 /-- `select_pre_registration_connection`. -/
@@ -90,33 +119,33 @@ def forwardVia (s : Sys F) (sel : Nat) (pkt : Bytes) (seq : Option Nat) (now : N
       | none => s.trk
     let s1 := { s with lastSelected := some sel, trk := trk }
     if needsFlush then
-      let (l2, wire, ok, fn) := sendConnectionBatch l1 now s.failNext
+      let (l2, wire, ok, fn) := sendConnectionBatch s.failAfter l1 now s.failNext
       let l3 := if ok then l2 else l2.markForRecovery
       ({ s1 with links := setAt s.links sel l3, failNext := fn }, { wire := wire })
     else ({ s1 with links := setAt s.links sel l1 }, {})
 
 /-- `send_stall_probes`: a 1-in-N duplicate on every stall-gated connected link other than `sel`. -/
-def stallProbesGo (pkt : Bytes) (seq : Option Nat) (now sel : Nat) :
+def stallProbesGo (fa : List (Nat × Nat)) (pkt : Bytes) (seq : Option Nat) (now sel : Nat) :
     List (FLink F) → Nat → List Nat → List (FLink F) × List (Nat × Bytes) × List Nat
   | [], _, fn => ([], [], fn)
   | l :: rest, i, fn =>
     if i = sel || !l.stallGated || !l.core.connected then
-      let (r, w, fn') := stallProbesGo pkt seq now sel rest (i + 1) fn
+      let (r, w, fn') := stallProbesGo fa pkt seq now sel rest (i + 1) fn
       (l :: r, w, fn')
     else
       let (l1, due) := l.stallProbeDue
       if !due then
-        let (r, w, fn') := stallProbesGo pkt seq now sel rest (i + 1) fn
+        let (r, w, fn') := stallProbesGo fa pkt seq now sel rest (i + 1) fn
         (l1 :: r, w, fn')
       else
         let (l2, needsFlush) := l1.queueDataPacket pkt seq now
         if needsFlush then
-          let (l3, wire, ok, fn1) := sendConnectionBatch l2 now fn
+          let (l3, wire, ok, fn1) := sendConnectionBatch fa l2 now fn
           let l4 := if ok then l3 else l3.markForRecovery
-          let (r, w, fn') := stallProbesGo pkt seq now sel rest (i + 1) fn1
+          let (r, w, fn') := stallProbesGo fa pkt seq now sel rest (i + 1) fn1
           (l4 :: r, wire ++ w, fn')
         else
-          let (r, w, fn') := stallProbesGo pkt seq now sel rest (i + 1) fn
+          let (r, w, fn') := stallProbesGo fa pkt seq now sel rest (i + 1) fn
           (l2 :: r, w, fn')
 
 /-- Run the scheduler on the links (`select_connection_idx`) and write the guard/cache fields back. -/
@@ -147,27 +176,27 @@ def handleSrtPacket (s : Sys F) (pkt : Bytes) (now : Nat) : Sys F × Out :=
     | some i =>
       let (s2, o) := forwardVia s1 i pkt seq now
       if seq.isSome then
-        let (ls, w, fn) := stallProbesGo pkt seq now i s2.links 0 s2.failNext
+        let (ls, w, fn) := stallProbesGo s2.failAfter pkt seq now i s2.links 0 s2.failNext
         ({ s2 with links := ls, failNext := fn, clientKnown := true }, { o with wire := o.wire ++ w })
       else ({ s2 with clientKnown := true }, o)
     | none => ({ s1 with clientKnown := true }, {})
 
 /-- `flush_all_batches`. A failed periodic flush only warns: the drained batch is lost. -/
-def flushGo (now : Nat) : List (FLink F) → List Nat → List (FLink F) × List (Nat × Bytes) × List Nat
+def flushGo (fa : List (Nat × Nat)) (now : Nat) : List (FLink F) → List Nat → List (FLink F) × List (Nat × Bytes) × List Nat
   | [], fn => ([], [], fn)
   | l :: rest, fn =>
     if l.needsBatchFlush now || !l.queue.isEmpty then
-      let (l1, wire, _, fn1) := sendConnectionBatch l now fn
-      let (r, w, fn') := flushGo now rest fn1
+      let (l1, wire, _, fn1) := sendConnectionBatch fa l now fn
+      let (r, w, fn') := flushGo fa now rest fn1
       (l1 :: r, wire ++ w, fn')
     else
-      let (r, w, fn') := flushGo now rest fn
+      let (r, w, fn') := flushGo fa now rest fn
       (l :: r, w, fn')
 
 def flushAllBatches (s : Sys F) (now : Nat) : Sys F × Out :=
   if !(s.links.any fun l => !l.queue.isEmpty || l.needsBatchFlush now) then (s, {})
   else
-    let (ls, w, fn) := flushGo now s.links s.failNext
+    let (ls, w, fn) := flushGo s.failAfter now s.links s.failNext
     ({ s with links := ls, failNext := fn }, { wire := w })
 
 /-! ## uplink_recv.rs + process_connection_events -/
@@ -426,6 +455,10 @@ inductive Ev where
   | setCfg (cfg : Select.Cfg)
   | crit (deadline : Nat)
   | failNext (connId : Nat)
+  /-- the next `send_all_datagrams` on the link with this conn id puts the first `min k len` datagrams of its batch
+  on the wire and THEN fails (`verif_fail::fail_after(fd, k)`); `failNext cid` is the case "nothing went out" and
+  is consulted first when both are pending. -/
+  | failAfter (connId : Nat) (k : Nat)
   /-- the next socket re-creation of the link with this conn id fails (binder error) -/
   | failBind (connId : Nat)
   /-- the stamping loop of the housekeeping arm (`src/sender/mod.rs`, after `handle_housekeeping`): the
@@ -459,7 +492,10 @@ def step (s : Sys F) : Ev → Sys F × Out
   | .hk now => handleHousekeeping s now
   | .setCfg cfg => ({ s with cfg := cfg }, {})
   | .crit d => ({ s with critDeadline := max s.critDeadline d }, {})
-  | .failNext cid => ({ s with failNext := cid :: s.failNext }, {})
+  | .failNext cid =>
+    ({ s with failNext := cid :: s.failNext, failAfter := pruneAfter s.failNext s.failAfter }, {})
+  | .failAfter cid k =>
+    ({ s with failNext := cid :: s.failNext, failAfter := pruneAfter s.failNext s.failAfter ++ [(cid, k)] }, {})
   | .failBind cid => ({ s with failBind := cid :: s.failBind }, {})
   | .stamp idx weak ld ccb cct => ({ s with links := stampLink s.links idx weak ld ccb cct }, {})
   | .syncTimeout =>
